@@ -4,6 +4,7 @@ import builtins
 import copy
 import functools
 import inspect
+import itertools
 import keyword
 import logging
 import os
@@ -139,7 +140,8 @@ class _InternalBaseTracer(_InternalBaseTracerSuper, metaclass=MetaTracerStateMac
 
     ast_rewriter_cls = AstRewriter
     defined_file = ""
-    sandbox_fname_counter = 0
+    sandbox_fname_counter = 0  # (kept for compatibility; the names are drawn from the counter below)
+    _sandbox_fname_numbers = itertools.count(1)
 
     _MANAGER_CLASS_REGISTERED = False
     EVENT_HANDLERS_PENDING_REGISTRATION: DefaultDict[TraceEvent, List[HandlerSpec]] = (
@@ -283,8 +285,8 @@ class _InternalBaseTracer(_InternalBaseTracerSuper, metaclass=MetaTracerStateMac
 
     @classmethod
     def make_sandbox_fname(cls) -> str:
-        cls.sandbox_fname_counter += 1
-        return f"{SANDBOX_FNAME_PREFIX}-{cls.sandbox_fname_counter}>"
+        # one step: two threads must never draw the same name (the second rewrite would evict the first's nodes)
+        return f"{SANDBOX_FNAME_PREFIX}-{next(cls._sandbox_fname_numbers)}>"
 
     @property
     def is_tracing_enabled(self) -> bool:
